@@ -176,10 +176,10 @@ public:
         }
 
         // generate counter chain
-        int temp_offset = static_cast<int>(initial_offset);
+        int64_t temp_offset = initial_offset;
         for (size_t i = 0; i < num_digits; i++)
         {
-            counter_chain[i] = temp_offset % n_ary_limits[i];
+            counter_chain[i] = static_cast<int>(temp_offset % n_ary_limits[i]);
             temp_offset /= n_ary_limits[i];
         }
 
